@@ -1041,8 +1041,9 @@ class TypeBlocks(ContainerOperand):
                 last = (block_idx, col)
                 bundle = [col]
                 continue
-            if last[0] == block_idx and abs(col - last[1]) == 1:
-                # if contiguous, update last, add to bundle
+            if (last[0] == block_idx and abs(col - last[1]) == 1
+                    and (len(bundle) == 1 or col - last[1] == bundle[1] - bundle[0])):
+                # if contiguous (and walking in the direction of the bundle), update last, add to bundle
                 last = (block_idx, col)
                 # do not need to store all col, only the last, however probably easier to just accumulate all
                 bundle.append(col)
